@@ -27,6 +27,14 @@ Definition dst_waiting_fin_ack (s : dst) (r : rcfg) (t : timer) (a b : Z) : Prop
 
 Ltac msimp := repeat (cbn; unfold bind, ret, raise, get, put, gets, modify, when).
 
+(* normalise a receiver state built from record updates on a constructor (keeps the kernel's conversion cheap) *)
+Ltac nstate st :=
+  let st' := eval cbv beta iota delta [set d_cfg d_state d_step d_states_tid d_ready d_queue d_p d_env
+    p_tid p_rcfg p_check_timer p_check_count p_closure p_cktype p_fin p_disp p_conf p_progress p_crc32 p_file_size
+    p_file_name p_file_size_eof p_md_only p_tracker p_md_missing p_last_start p_last_end p_deferred p_proc_timer
+    p_nak_counter p_ack_timer p_ack_counter f_deliv f_fstatus f_cond f_fl e_now e_fs e_reject_writes e_log] in st in
+  change st with st'.
+
 Ltac dsrc s :=
   destruct s as [cfg st step ready q p sb pt sc sbits env]; destruct env as [nw fs rw lg];
   destruct p as [tid ckt ackt ackc ce pr sl fsz ef mdo fin rc cl cf].
@@ -324,12 +332,12 @@ Qed.
 
 (* the nested state_machine() call after the notice of cancellation: completion, Finished (cancel) PDU,
    positive ACK procedure restarted *)
-Lemma nif_cancel_completion : forall s r a b,
+Lemma nif_cancel_completion : forall k s r a b,
   d_state s = ST_BUSY -> d_step s = DS_TRANSFER_COMPLETION -> d_queue s = [] -> d_ready s = 0 ->
   p_rcfg (d_p s) = Some r -> p_tid (d_p s) = Some (a, b) -> h_mode (p_conf (d_p s)) = ACKED ->
   p_disp (d_p s) = DISP_CANCELED -> 0 < r_ack_ms r ->
   exists s' fstatus',
-    non_idle_fsm 2 None s = (s', Ok tt) /\
+    non_idle_fsm (S k) None s = (s', Ok tt) /\
     d_queue s' = [PFinished (set_dir TOWARDS_SENDER (p_conf (d_p s))) (f_cond (p_fin (d_p s))) (f_deliv (p_fin (d_p s)))
                             fstatus' (f_fl (p_fin (d_p s)))] /\
     p_ack_counter (d_p s') = 0 /\ p_ack_timer (d_p s') = Some (now_d s, r_ack_ms r) /\
@@ -338,15 +346,16 @@ Lemma nif_cancel_completion : forall s r a b,
                  (evs = [] \/ evs = [EvFinished a b (f_cond (p_fin (d_p s))) (f_deliv (p_fin (d_p s))) fstatus'
                                                 (f_fl (p_fin (d_p s)))])).
 Proof.
-  intros s r a b Hst Hstep Hq Hrd Hr Htid Hm Hdisp Hms. unfold now_d, log_d.
+  intros k s r a b Hst Hstep Hq Hrd Hr Htid Hm Hdisp Hms. unfold now_d, log_d.
   ddst s. cbn in Hst, Hstep, Hq, Hrd, Hr, Htid, Hm, Hdisp. subst st step q ready rc tid disp.
   destruct cf as [hdir hmode hcrc hlarge hsrc hdst hidw hseq hseqw]. cbn in Hm. subst hmode.
-  cbn [non_idle_fsm]. generalize (non_idle_fsm 1 None). intros ag.
+  cbn [non_idle_fsm].
   unfold fsm_advancement, step_is, get_step, handle_transfer_completion, notice_of_completion, rcfg_or_assert,
     mode_is, tmode, gp. msimp.
   destruct (l_ind_fin cfg) eqn:Hind;
     (match goal with |- context[r_disposition r && ?x] => destruct (r_disposition r && x) end);
     msimp; rewrite ?Hind; msimp;
+    (match goal with |- context[handle_waiting_for_finished_ack _ None ?st] => nstate st end);
     unfold handle_waiting_for_finished_ack, handle_positive_ack_procedures; msimp;
     rewrite (fresh_timer_running nw (r_ack_ms r) Hms); msimp;
     (eexists; eexists; split; [reflexivity|]; cbn;
@@ -379,8 +388,9 @@ Proof.
   rewrite Hto. msimp. rewrite Hle. msimp. rewrite Hdc. msimp.
   unfold declare_fault. msimp. rewrite Hfh. msimp.
   subst ag.
+  match goal with |- context[non_idle_fsm 2 None ?st] => nstate st end.
   match goal with |- context[non_idle_fsm 2 None ?st] =>
-    destruct (nif_cancel_completion st r a b) as (s' & fstatus' & Hrun & Hq' & Hc' & Ht' & Hstep' & Hst' & Hd' & evs & Hlog & Hevs);
+    destruct (nif_cancel_completion 1%nat st r a b) as (s' & fstatus' & Hrun & Hq' & Hc' & Ht' & Hstep' & Hst' & Hd' & evs & Hlog & Hevs);
       [reflexivity | reflexivity | reflexivity | reflexivity | reflexivity | reflexivity | exact Hm | reflexivity | exact Hms |]
   end.
   rewrite Hrun. msimp.
